@@ -55,7 +55,7 @@ type Blk struct {
 
 func hasBreak(seq []Inl) bool {
 	for _, x := range seq {
-		if x.K == iHard || x.K == iSoft {
+		if x.K == iHard || x.K == iSoft || hasBreak(x.Kids) {
 			return true
 		}
 	}
@@ -346,7 +346,10 @@ func (p *mdPrinter) lit(s, what string) string {
 }
 
 func simpleLabel(seq []Inl) bool {
-	for _, x := range seq {
+	for i, x := range seq {
+		if x.K == iSoft && i > 0 && i < len(seq)-1 {
+			continue // a label may span lines
+		}
 		if x.K != iWord {
 			return false
 		}
@@ -402,7 +405,8 @@ func (p *mdPrinter) linkTail(x Inl, text string, kids []Inl) string {
 		}
 		return "[" + l + "]"
 	}
-	// collapsed / shortcut: the text itself is the label
+	// collapsed / shortcut: the text itself is the label (a label that spans lines is written on one line in its definition)
+	text = strings.Join(strings.Fields(text), " ")
 	found := false
 	for _, d := range p.defs {
 		if d.label == text && d.dest == x.Dest && d.title == x.Title {
